@@ -734,7 +734,11 @@ BOUNDS = {
     "with all block contents, the response untouched / data+MAC blocks "
     "replaced by arbitrary bytes / one header byte replaced / one byte short "
     "or long; the payload of the 2nd (Lite, Lite-S), 3rd and 5th (Lite-S) "
-    "response inside authenticate() replaced by arbitrary bytes; Lite-S "
+    "response inside authenticate() replaced by arbitrary bytes; two-step "
+    "history on one tag object: authenticate (+read_with_mac) against the "
+    "genuine tag, then authenticate against a key-less counterfeit replaying "
+    "the recorded responses (Lite with a read, Lite-S), every authenticate() "
+    "writes the fresh os.urandom output as RC; Lite-S "
     "write_with_mac of arbitrary data to block 5 (all write counters) with the "
     "tag model verifying MAC_A/WCNT, untouched and with the write counter "
     "read replaced in transit; tag.ndef "
@@ -766,7 +770,11 @@ ASSUMPTIONS = [
     "is an arbitrary function without collisions over all calls of a run; CBC "
     "chaining is done by the stub as pyDes does; the DES computation is not covered",
     "os.urandom in nfc.tag.tt3_sony is replaced by a source of symbolic bytes "
-    "(the challenge is universally quantified)",
+    "(the challenge is universally quantified); successive outputs are "
+    "assumed pairwise different (fails with probability 2^-128 per pair)",
+    "env.tt3lite_sim.Replayer: a counterfeit without key answers a command "
+    "with the genuine tag's last recorded response to the same command code "
+    "and block list, silent otherwise",
     "env.tt3lite_sim.LiteSim is the independent reading of the FeliCa Lite / "
     "Lite-S manuals (session key, MAC, MAC_A, WCNT, STATE); with real 3DES it "
     "reproduces the four MAC vectors recorded in tests/test_tag_tt3_sony.py",
